@@ -572,3 +572,50 @@ _units_l5 = units
 
 def units(tier):   # noqa: F811
     return _units_l5(tier) + toplevel_units()
+
+
+def small_units():
+    """the comparison operators the sort relies on, dualize_edge, and the global minimum read-out"""
+    U = []
+    Gc = ("typedef size_t Index; typedef int Filtration_value;\n"
+          "typedef struct { Filtration_value first; Index second; } T_with_index; typedef struct { Filtration_value first; } T_no_index;\n"
+          "#define VP_TIE2_LT(a1, a2, b1, b2) ((a1) < (b1) || (!((b1) < (a1)) && (a2) < (b2)))   /* std::tie(a1,a2) < std::tie(b1,b2) */\n"
+          "size_t nondet_size(void); int nondet_int(void);\n")
+    # T_with_index::operator< : lexicographic on (value, index); T_no_index::operator< : by value
+    f1 = Fn(R, r"bool operator<\(T_with_index const& other\) const", "twi_less", """
+__CPROVER_ensures(__CPROVER_return_value == (self_first < other.first || (self_first == other.first && self_second < other.second)))
+__CPROVER_assigns()
+""", sig_subs=[(r"operator<", "twi_less"), (r"\(T_with_index const& other\)", "(Filtration_value self_first, Index self_second, T_with_index const& other)")],
+            subs=[(r"std::tie\(first, second\) < std::tie\(other\.first, other\.second\)", "VP_TIE2_LT(self_first, self_second, other.first, other.second)")],
+            canary=(r"VP_TIE2_LT\(self_first, self_second, other\.first, other\.second\)", "VP_TIE2_LT(self_first, self_first, other.first, other.first)"))
+    U.append(Unit("rect.T_with_index.less", "C14", [f1], enforce="twi_less", globals_=Gc, inputs=["in_a", "in_b"],
+                  harness=H("  T_with_index in_a, in_b; in_a.first = nondet_int(); in_a.second = nondet_size(); in_b.first = nondet_int(); in_b.second = nondet_size();", "twi_less(in_a.first, in_a.second, in_b);"),
+                  desc="T_with_index::operator<: lexicographic on (value, index) - in index mode the elder rule breaks ties by index"))
+    f2 = Fn(R, r"bool operator<\(T_no_index const& other\) const", "tni_less", """
+__CPROVER_ensures(__CPROVER_return_value == (self_first < other.first))
+__CPROVER_assigns()
+""", sig_subs=[(r"operator<", "tni_less"), (r"\(T_no_index const& other\)", "(Filtration_value self_first, T_no_index const& other)")],
+            subs=[(r"return first < other\.first;", "return self_first < other.first;")], canary=(r"self_first < other\.first", "other.first < self_first"))
+    U.append(Unit("rect.T_no_index.less", "C14", [f2], enforce="tni_less", globals_=Gc, inputs=["in_a", "in_b"],
+                  harness=H("  T_no_index in_b; int in_a = nondet_int(); in_b.first = nondet_int();", "tni_less(in_a, in_b);"),
+                  desc="T_no_index::operator<: by value"))
+    # dualize_edge: the two squares on either side of a primal edge
+    Gd = "typedef size_t Index; typedef int Filtration_value; typedef struct { Filtration_value first; } T;\nstruct Edge { T f; Index v1, v2; };\nIndex dy;\nsize_t nondet_size(void);\n"
+    f3 = Fn(R, r"void dualize_edge\(Edge& e\) const", "dualize_edge", """
+__CPROVER_requires(dy >= 2 && dy <= 65536 && e->v1 <= 4294967296ul && (e->v2 == e->v1 + 1 || e->v2 == e->v1 + dy))
+__CPROVER_ensures(__CPROVER_old(e->v2) == __CPROVER_old(e->v1) + 1 ? (e->v1 == __CPROVER_old(e->v1) + 1 && e->v2 == __CPROVER_old(e->v1) + 1 + dy)
+                                                                   : (e->v1 == __CPROVER_old(e->v1) + dy && e->v2 == __CPROVER_old(e->v1) + dy + 1))
+__CPROVER_ensures(e->v1 < e->v2)
+__CPROVER_assigns(e->v1, e->v2)
+""", sig_subs=[(r"Edge&", "struct Edge&")], canary=(r"\(dy \+ 1\)", "(dy)"))
+    U.append(Unit("rect.dualize_edge", "C14", [f3], enforce="dualize_edge", globals_=Gd, inputs=["in_e", "dy"],
+                  harness=H("  struct Edge in_e; in_e.v1 = nondet_size(); in_e.v2 = nondet_size(); dy = nondet_size(); struct Edge x_e = in_e;", "dualize_edge(&x_e);"),
+                  desc="dualize_edge: a horizontal edge {v, v+1} becomes the squares below/above it (v+1, v+1+dy), a vertical edge {v, v+dy} the squares left/right of it (v+dy, v+dy+1); the result stays ordered"))
+    return U
+
+
+_units_top = units
+
+
+def units(tier):   # noqa: F811
+    return _units_top(tier) + small_units()
